@@ -132,10 +132,13 @@ static void dump_json(double start, int level)
     }
     printf(" endsegs");
     if (level) {
-        /* the alignment object the JSON call itself used (it is owned by the decoder's alignment search);
-         * when the call returned NULL, ask the alignment interface whether it has anything to report */
-        al = js ? (d->align ? ((state_align_search_t *)d->align)->al : NULL)
-                : decoder_alignment(d);
+        /* what the PUBLIC alignment interface reports for the same result, asked right after the
+         * JSON call: the property compares the line with this one.  On the code as it is, the JSON call went
+         * through decoder_alignment() itself, so this second request takes the reuse shortcut and hands back
+         * the very object the line was rendered from; a line rendered from an aligner left behind by an
+         * earlier request (before more audio came in) differs from it and is judged by the oracle.  When the
+         * call returned NULL this asks whether the interface has anything to report. */
+        al = decoder_alignment(d);
         if (al == NULL)
             printf(" al=null");
         else {
